@@ -29,6 +29,9 @@ func pick(r *rand.Rand, xs []int64) int64 { return xs[r.Intn(len(xs))] }
 func (g *GenCfg) Next(r *rand.Rand, m *Machine, p *Proj) Act {
 	u := m.U
 	if !m.InTx {
+		if r.Intn(3) == 0 {
+			return Act{Op: "BeginTxL", A: 1 + r.Intn(u.NA), I: 1 + r.Intn(u.NA), K: 1 + r.Intn(u.NS), Tx: m.Tx}
+		}
 		return Act{Op: "BeginTx", A: 1 + r.Intn(u.NA), Tx: m.Tx}
 	}
 	feas := Is6780(m.Rules)
